@@ -37,8 +37,8 @@ def switch_after(fn, t):
             return None
         sw = fn.mir['blocks'][cur]['term']
         if sw['t'] == 'switch':
-            ones = [x for v, x in sw['targets'] if v == '1']
-            zeros = [x for v, x in sw['targets'] if v == '0']
+            ones = [P.enum_edges(sw)['1']] if '1' in P.enum_edges(sw) else []
+            zeros = [P.enum_edges(sw)['0']] if '0' in P.enum_edges(sw) else []
             if ones:
                 return ones[0], (zeros[0] if zeros else sw['otherwise']), cur
             if zeros:
@@ -188,7 +188,7 @@ def r2_status_dom(c, facts):
         c.bad(R, 'status-domain:%s..=%s' % (lo, hi), 'HttpStatus::try_from accepts %s..=%s instead of 100..=599' % (lo, hi))
     if cont:
         sw = fn.mir['blocks'][cont[0][1]['target']]['term']
-        f_t = [x for v, x in sw['targets'] if v == '0'] if sw['t'] == 'switch' else []
+        f_t = [P.enum_edges(sw)['0']] if '0' in P.enum_edges(sw) else [] if sw['t'] == 'switch' else []
         if f_t and P.only_on_edge(fn, cont[0][1]['target'], sw['otherwise'], f_t[0], cb):
             c.ok(R, {'HttpStatus::Code': 'on the true edge of contains()'})
         else:
